@@ -7,34 +7,51 @@
      "vmess-resp"  client, VMess response header: opens under the request-derived keys and carries
                    the response authentication byte chosen by the client
    A receiver handles messages one at a time; `delivered` counts what reached the application.
+   `ext` names a timestamp at an extreme of what the field can carry instead of `now + dts`:
+     "lo"   the lowest value the field can hold,   "hi"  the highest,
+     "wrap" the value whose difference with the receiver's clock is the lowest number a signed 64-bit
+            subtraction can produce (its absolute value does not exist in that arithmetic).
+   None of them is within any window.
    Deviations (anti-vacuity): "NoEcho" "NoRespType" "NoRespFresh" "NoUdpType" "NoUdpFresh"
-   "WideVMess" "NoRespByte".                                                                    *)
+   "WideVMess" "NoRespByte" "WrapAbs" (the absolute difference is taken in wrapping arithmetic: the
+   "wrap" timestamp comes out as a negative 'distance' and passes the window test).            *)
 EXTENDS Integers, FiniteSets, Sequences, TLC
 
 CONSTANTS Win, VWin, Kinds, DT, VDT, Dev
 
 Abs(x) == IF x < 0 THEN -x ELSE x
 
+Exts == {"no", "lo", "hi", "wrap"}
+\* an extreme timestamp replaces now + dts: only dts = 0 is paired with it
+ExtOK(m) == m.ext = "no" \/ m.dts = 0
 Messages ==
-  [kind : {"ss-resp"} \cap Kinds, dts : DT, typ : {0, 1, 2}, echo : {"own", "other"}, auth : {"ok"}]
-  \cup [kind : {"ss-udp-c2s", "ss-udp-s2c"} \cap Kinds, dts : DT, typ : {0, 1, 2}, echo : {"own"}, auth : {"ok"}]
-  \cup [kind : {"vmess-auth"} \cap Kinds, dts : VDT, typ : {0}, echo : {"own"}, auth : {"ok", "badcrc", "unknownuser"}]
-  \cup [kind : {"vmess-resp"} \cap Kinds, dts : {0}, typ : {0}, echo : {"own", "other"}, auth : {"ok", "otherkeys"}]
+  {m \in
+    [kind : {"ss-resp"} \cap Kinds, dts : DT, ext : Exts, typ : {0, 1, 2}, echo : {"own", "other"}, auth : {"ok"}]
+    \cup [kind : {"ss-udp-c2s", "ss-udp-s2c"} \cap Kinds, dts : DT, ext : Exts, typ : {0, 1, 2}, echo : {"own"}, auth : {"ok"}]
+    \cup [kind : {"vmess-auth"} \cap Kinds, dts : VDT, ext : Exts, typ : {0}, echo : {"own"}, auth : {"ok", "badcrc", "unknownuser"}]
+    \cup [kind : {"vmess-resp"} \cap Kinds, dts : {0}, ext : {"no"}, typ : {0}, echo : {"own", "other"}, auth : {"ok", "otherkeys"}]
+   : ExtOK(m)}
+
+\* what the receiver's window test answers
+Within(m, w) == \/ m.ext = "no" /\ Abs(m.dts) <= w
+                \/ m.ext = "wrap" /\ "WrapAbs" \in Dev
+\* what is true
+Fresh(m, w) == m.ext = "no" /\ Abs(m.dts) <= w
 
 Accepts(m) ==
   CASE m.kind = "ss-resp" ->
          /\ (m.typ = 1 \/ "NoRespType" \in Dev)
-         /\ (Abs(m.dts) <= Win \/ "NoRespFresh" \in Dev)
+         /\ (Within(m, Win) \/ "NoRespFresh" \in Dev)
          /\ (m.echo = "own" \/ "NoEcho" \in Dev)
     [] m.kind = "ss-udp-c2s" ->
          /\ (m.typ = 0 \/ "NoUdpType" \in Dev)
-         /\ (Abs(m.dts) <= Win \/ "NoUdpFresh" \in Dev)
+         /\ (Within(m, Win) \/ "NoUdpFresh" \in Dev)
     [] m.kind = "ss-udp-s2c" ->
          /\ (m.typ = 1 \/ "NoUdpType" \in Dev)
-         /\ (Abs(m.dts) <= Win \/ "NoUdpFresh" \in Dev)
+         /\ (Within(m, Win) \/ "NoUdpFresh" \in Dev)
     [] m.kind = "vmess-auth" ->
          /\ m.auth = "ok"
-         /\ (Abs(m.dts) <= VWin \/ ("WideVMess" \in Dev /\ Abs(m.dts) <= VWin + 1))
+         /\ (Within(m, VWin) \/ ("WideVMess" \in Dev /\ Within(m, VWin + 1)))
     [] m.kind = "vmess-resp" ->
          /\ m.auth = "ok"
          /\ (m.echo = "own" \/ "NoRespByte" \in Dev)
@@ -50,10 +67,10 @@ MSpec == MInit /\ [][Receive]_mvars
 
 \* ---- the property ----
 Legit(m) ==
-  CASE m.kind = "ss-resp"    -> m.typ = 1 /\ Abs(m.dts) <= Win /\ m.echo = "own"
-    [] m.kind = "ss-udp-c2s" -> m.typ = 0 /\ Abs(m.dts) <= Win
-    [] m.kind = "ss-udp-s2c" -> m.typ = 1 /\ Abs(m.dts) <= Win
-    [] m.kind = "vmess-auth" -> m.auth = "ok" /\ Abs(m.dts) <= VWin
+  CASE m.kind = "ss-resp"    -> m.typ = 1 /\ Fresh(m, Win) /\ m.echo = "own"
+    [] m.kind = "ss-udp-c2s" -> m.typ = 0 /\ Fresh(m, Win)
+    [] m.kind = "ss-udp-s2c" -> m.typ = 1 /\ Fresh(m, Win)
+    [] m.kind = "vmess-auth" -> m.auth = "ok" /\ Fresh(m, VWin)
     [] m.kind = "vmess-resp" -> m.auth = "ok" /\ m.echo = "own"
 OnlyLegitDelivered == state = "delivered" => Legit(msg)
 LegitNotRefused    == state = "refused" => ~Legit(msg)
